@@ -1356,4 +1356,39 @@ example :
     (([TokenMeta.SchemaOp.fill 1, .fill 2, .events [.other 1, .keyspace 3], .fill 2].foldl (TokenMeta.schemaOp env te {}) {}).cache) = [2] := by
   decide
 
+/-! ### control-connection failover: the control host goes down, the driver reconnects to ANOTHER host of the ring
+(setupConn: the new control host's system.local row goes through ring.addOrUpdate + pool / policy), REGISTERs again
+and refreshes; the events pushed meanwhile were never received -/
+
+/-- `C16_failover_follows_report`. For EVERY history `pre` before the control connection was lost, EVERY new control
+host `l0` (any host: known or not, any addresses) and EVERY report of that host: after the reconnect
+(`addInitial l0` = setupConn's addOrUpdate + startPoolFill) and the refresh that follows it
+(1) the view follows the new control host's report (all six clauses of the oracle `evfollows`), and
+(2) the host ids of the ring are exactly the accepted reported ids — which is ALSO what the ring would hold had any batch
+`missed` of node events (UP / DOWN / NEW_NODE / REMOVED_NODE / MOVED_NODE, pushed while no control connection existed and
+therefore lost) been delivered before the refresh: the gap is covered by the refresh. -/
+theorem C16_failover_follows_report (env : Env) (hloc : LocStable env) (pre : List VOp) (l0 : RHost)
+    (reported : List RHost) (missed : List Ev) :
+    let v := runV env View.empty (pre ++ [.addInitial l0])
+    (v.refresh env reported).followsViolations env v.ring.ids reported = [] ∧
+    (∀ id, id ∈ (v.refresh env reported).ring.ids ↔ ∃ h ∈ reported, env.filter h = false ∧ h.id = id) ∧
+    (∀ id, id ∈ ((v.handleBatch env missed).refresh env reported).ring.ids ↔ id ∈ (v.refresh env reported).ring.ids) := by
+  intro v
+  have ha : Agree env v := C16_view_invariant env hloc _
+  have ha' : Agree env (v.handleBatch env missed) := by
+    have heq : runV env View.empty (pre ++ [.addInitial l0] ++ [.batch missed]) = v.handleBatch env missed := by
+      simp [v, runV, List.foldl_append, applyV]
+    rw [← heq]
+    exact C16_view_invariant env hloc _
+  have h1 := (C16_view_follows_report env v ha reported).1
+  have h2 := (C16_view_follows_report env (v.handleBatch env missed) ha' reported).1
+  exact ⟨C16_follows_oracle_ok env v ha reported, h1, fun id => (h2 id).trans (h1 id).symm⟩
+
+/-- non-vacuity: control host 1 (address 7) and host 2 known; host 1 goes away, the driver lands on host 2, whose report is
+{2, 3}: host 3 joined during the gap (its NEW_NODE event was lost) — the ring holds 2 and 3 -/
+example :
+    let env : Env := ⟨fun _ => false, fun _ => true, false, false, false⟩
+    let v := runV env View.empty [.addInitial ⟨1, 1, 7, 7⟩, .addInitial ⟨2, 2, 8, 8⟩, .addInitial ⟨3, 2, 8, 8⟩]
+    (v.refresh env [⟨4, 2, 8, 8⟩, ⟨5, 3, 9, 9⟩]).ring.ids = [3, 2] := by decide
+
 end C16
